@@ -72,3 +72,38 @@ Fixpoint lookup {A} (k : string) (l : list (string * A)) : option A :=
   | [] => None
   | (k', v) :: r => if String.eqb k k' then Some v else lookup k r
   end.
+
+(* ---- GoLite: statement-level translation of small function bodies (go/gen, goliteFuncs) ----
+   The abstract syntax only; its semantics is Model/GoLite.v.  Anything the translator does not understand
+   becomes an explicit EUnsupported / SUnsupported node carrying the source text. *)
+Inductive binop := OEq | ONe | OLt | OLe | OGt | OGe | OAdd | OSub.
+
+Inductive expr :=
+| EVar (x : string)                 (* local variable "group" or receiver field "r.toIterate" *)
+| EInt (z : Z)
+| ELen (e : expr)
+| EIndex (e i : expr)               (* e[i] *)
+| ESliceFrom (e i : expr)           (* e[i:] *)
+| EBin (o : binop) (a b : expr)
+| EAnd (a b : expr)                 (* short-circuit *)
+| EOr (a b : expr)
+| EAppend (e x : expr)              (* append(e, x) *)
+| EMake (ty : string) (n : expr)    (* make(T, 0, n) *)
+| EPerm (e : expr)                  (* math/rand.Perm(e): oracle *)
+| EUnsupported (s : string).
+
+Inductive stmt :=
+| SSet (x : string) (e : expr)                 (* x = e, x := e *)
+| SSetIdx (x : string) (i e : expr)            (* x[i] = e *)
+| SInc (x : string) (w : Z)                    (* x++ on a signed integer of w bits *)
+| SCond (c : expr) (t e : list stmt)
+| SWhile (c : expr) (b : list stmt)            (* for c { b } *)
+| SRange (x : string) (e : expr) (b : list stmt)  (* for _, x := range e { b } *)
+| SRet (e : option expr)
+| SCallM (f : string)                          (* r.f() : another translated method, same receiver *)
+| SLock (m : string)
+| SUnlock (m : string)
+| SDeferUnlock (m : string)
+| SUnsupported (s : string).
+
+Record gfun := mkGfun { gf_recv : string; gf_body : list stmt }.
